@@ -801,7 +801,9 @@ static void do_collect(int force) {
 static void free_all_of_thread(int heapid_or_all) {
   for (int s = 0; s < MAXSLOTS; s++) if (slots[s].p && (heapid_or_all < 0 || slots[s].heap == heapid_or_all)) op_free_slot(s, FR_free);
 }
+static int wl_scale = 1;   /* divide the block counts of the OS-level workloads (fault enumeration uses smaller rounds) */
 static void alloc_many(int count, size_t lo, size_t hi, int ops_mix) {
+  if (wl_scale > 1 && count > 3) { count = count / wl_scale; if (count < 3) count = 3; }
   for (int i = 0; i < count; i++) {
     size_t n = lo + (size_t)vf_randn(hi - lo + 1);
     int op = A_malloc;
@@ -931,6 +933,7 @@ int main(int argc, char** argv) {
     else if (!strcmp(argv[i], "--kind") && i + 1 < argc) fault_kind = atoi(argv[++i]);
     else if (!strcmp(argv[i], "--recover") && i + 1 < argc) recover_after = atoi(argv[++i]);
     else if (!strcmp(argv[i], "--countos")) count_os = 1;
+    else if (!strcmp(argv[i], "--scale") && i + 1 < argc) wl_scale = atoi(argv[++i]);
     else if (!strcmp(argv[i], "--wordoffsets")) word_offsets = atoi(argv[++i]);   /* only the backing heap (explicit-heap entry points still used, on the backing heap) */
     else usage();
   }
